@@ -774,12 +774,49 @@ def dump_kill_points(**kw):
     return sc.rec
 
 
+def install_drops_acked(**kw):
+    """a follower stores and acknowledges an entry and then, in the same run of deliveries, installs the leader's
+    snapshot of an earlier position (sent after an outdated rejection): the entries it holds behind the snapshot's
+    position must survive the install - the leader counts the acknowledgement (trace found by the refinement worker
+    while looking for a sound abstract install rule)"""
+    sc = Script(base_cfg([1, 2, 3], batch=1000, chunk=100, fallback=100000), **kw)
+    s = sc.s
+    s.boot()
+    sc.elect(1, [3])                  # 2 takes no part (its vote request is still queued)
+    while sc.sim.queue_len(1, 2):
+        sc.rec.do(('lose', 1, 2, 1))  # ... and misses the first append_entries (the no-op at index 2)
+    sc.flush(1, 3); sc.flush(3, 1)
+    s.submit(1, size=10)              # index 3
+    s.tick(1, 11); s.tick(1, 11)
+    sc.flush(1, 3); sc.flush(3, 1)
+    sc.flush(1, 2)                    # 2 lacks the previous entry of both messages: two rejections queue up
+    s.tick(1, 11)                     # index 3 committed and applied on 1
+    s.deliver(2, 1)                   # the first rejection: next index of 2 back to 2
+    s.tick(1, 11)                     # 1 sends 2..3 again
+    s.submit(1, size=10)              # index 4
+    s.tick(1, 11)
+    sc.rec.do(('compact', 1))
+    s.tick(1, 11); s.tick(1, 11)      # snapshot at position 3 taken, log of 1 now starts at 2
+    s.deliver(2, 1)                   # the second rejection, as old as the first: next index of 2 back to 2 again
+    s.tick(1, 11)                     # 1 ships its snapshot - behind the append_entries already queued for 2
+    n = sc.sim.queue_len(1, 2)
+    sc.flush(1, 2, n - 1)             # 2 stores 2, 3, 4, acknowledges 4, then installs the snapshot of position 3
+    sc.flush(2, 1)
+    s.tick(1, 11)                     # 1 commits 4 on 2's acknowledgement
+    sc.isolate(1)
+    sc.elect_until(3, [2])            # 3 (last entry 3) is elected by 2 if 2 lost entry 4
+    sc.settle([2, 3], 3)
+    sc.join(1)
+    sc.settle([1, 2, 3], 4)
+    return sc.rec
+
+
 SCENARIOS = {'d7': d7, 'd8': d8, 'd17': d17, 'd16': d16, 'd1': d1, 'd20': d20,
              'snapshot_catchup': snapshot_catchup, 'forwarded': forwarded,
              'restart_double_vote': restart_double_vote, 'd18': d18, 'd10': d10, 'd19': d19, 'd6': d6,
              'ser_fork': ser_fork, 'ser_custom': ser_custom, 'fig8': fig8, 'stale_match_reelected': stale_match_reelected,
              'stale_cursor': stale_cursor, 'compact_during_install': compact_during_install,
-             'member_rollback': member_rollback, 'backoff_burst': backoff_burst, 'snapshot_members': snapshot_members, 'old_snapshot_again': old_snapshot_again, 'dump_kill_points': dump_kill_points}
+             'member_rollback': member_rollback, 'backoff_burst': backoff_burst, 'snapshot_members': snapshot_members, 'old_snapshot_again': old_snapshot_again, 'dump_kill_points': dump_kill_points, 'install_drops_acked': install_drops_acked}
 NAMES = sorted(SCENARIOS)
 
 
